@@ -128,7 +128,8 @@ fn read_phase(rq: &mut tiny_http_rt::Request, a: &Action, idx: usize, log: &Log)
         let mut buf = vec![0u8; std::cmp::max(1, a.buf)];
         while got < a.read_total {
             let want = std::cmp::min(buf.len(), a.read_total - got);
-            match reader.read(&mut buf[..want]) {
+            // odd request sizes go through `read_vectored` with one buffer: the same read
+                    match if want % 2 == 1 { reader.read_vectored(&mut [std::io::IoSliceMut::new(&mut buf[..want])]) } else { reader.read(&mut buf[..want]) } {
                 Ok(0) => {
                     end = "eof";
                     break;
